@@ -127,6 +127,31 @@ def lerp : List Rat → List V → Rat → Option V
       if t0 ≤ t ∧ t ≤ t1 then some (lerpV p0 p1 ((t - t0) / (t1 - t0))) else lerp (t1 :: ts) (p1 :: ps) t
   | _, _, _ => none
 
+/-! ### analytic curves: the functions of `LineCurve` and `CircleCurve`, `AnalyticCurve.get_length` (round 6) -/
+
+/-- `LineCurve._line_function(t)`: `point_1 + (point_2 - point_1) * t` -/
+def linePoint (p1 p2 : V) (t : Rat) : V := lerpV p1 p2 t
+
+/-- `CircleCurve._circle_function(t)` = `f.rotate(rim, t, normal, origin)` for the unit normal `n`, with `(ct, st)` standing for
+    `(cos t, sin t)` (Rodrigues' formula): `origin + ct·v + st·(n × v) + (1 − ct)(n·v)·n`, `v = rim − origin` -/
+def circlePoint (O rim n : V) (ct st : Rat) : V :=
+  Vec.add O (Vec.add (Vec.add (Vec.smul ct (Vec.sub rim O)) (Vec.smul st (Vec.cross n (Vec.sub rim O))))
+    (Vec.smul ((1 - ct) * Vec.dot n (Vec.sub rim O)) n))
+
+/-- squared distance from the query `q` to the circle of `CircleCurve(O, rim, n)`, in closed form (`T_C16_circle_closest_real`:
+    the closest circle point is the one at the query's own angle): `(R − ρ)² + h²` with `ρ` the distance of `q` from the axis,
+    `h` its height over the circle's plane; `wRρ` witnesses `sqrt(R²ρ²)`.  Returns `(R²ρ², (R − ρ)² + h²)`. -/
+def circleMinDist2 (O rim n q : V) (wRρ : Rat) : Rat × Rat :=
+  let v := Vec.sub rim O
+  let k := Vec.dot n v
+  let centre := Vec.add O (Vec.smul k n)
+  let u := Vec.sub q centre
+  let h := Vec.dot u n
+  let w := Vec.sub u (Vec.smul h n)
+  let R2 := Vec.nsq (Vec.sub v (Vec.smul k n))
+  let ρ2 := Vec.nsq w
+  (R2 * ρ2, R2 + ρ2 - 2 * wRρ + h * h)
+
 /-! ### closest parameter of the linear interpolant (repaired code: exact projection to every segment) -/
 
 def dist2 (p q : V) : Rat := Vec.nsq (Vec.sub p q)
@@ -284,6 +309,39 @@ def handleParams (args : List String) : Option String :=
         | none => "reject")
   | _ => none
 
+/-- `c16.linelen p1 p2 lo hi <a|none> <b|none> eps` → `ok <length>` | `reject` | `badwit`
+    (`AnalyticCurve.get_length` of a `LineCurve`: argument handling, 100 samples, polyline) -/
+def handleLineLen (args : List String) : Option String :=
+  match args with
+  | [p1, p2, lo, hi, a, b, eps] => do
+      let p1 ← parseVec? p1; let p2 ← parseVec? p2; let lo ← parseRat? lo; let hi ← parseRat? hi
+      let a ← parseOptRat? a; let b ← parseOptRat? b; let eps ← parseRat? eps
+      match discretizeFB (linePoint p1 p2) lo hi a b 100 with
+      | none => some "reject"
+      | some l => if distOk eps l then some s!"ok {showRat (polyLenD distQ l)}" else some "badwit"
+  | _ => none
+
+/-- `c16.circle O rim n ct st` → `ok <curve point>` (`CircleCurve.get_point` with `(ct, st)` for `(cos t, sin t)`) -/
+def handleCircle (args : List String) : Option String :=
+  match args with
+  | [o, rim, n, ct, st] => do
+      let o ← parseVec? o; let rim ← parseVec? rim; let n ← parseVec? n; let ct ← parseRat? ct; let st ← parseRat? st
+      some s!"ok {showVec (circlePoint o rim n ct st)}"
+  | _ => none
+
+/-- `c16.vcircle O rim n q ct st eps` → `ok <squared distance of the curve point at (ct, st) to q> <squared distance of q to the circle>`
+    | `badwit` (validator of `CircleCurve.get_closest_param`: the answer against the analytic optimum) -/
+def handleVCircle (args : List String) : Option String :=
+  match args with
+  | [o, rim, n, q, ct, st, eps] => do
+      let o ← parseVec? o; let rim ← parseVec? rim; let n ← parseVec? n; let q ← parseVec? q
+      let ct ← parseRat? ct; let st ← parseRat? st; let eps ← parseRat? eps
+      let x := (circleMinDist2 o rim n q 0).1
+      let w := sqrtQ x
+      if !witOk w x eps then some "badwit"
+      else some s!"ok {showRat (dist2 (circlePoint o rim n ct st) q)} {showRat (circleMinDist2 o rim n q w).2}"
+  | _ => none
+
 /-- `c16.parray <k>` → indices kept by `point_array` of a k-point discretisation -/
 def handlePArray (args : List String) : Option String :=
   match args with
@@ -307,6 +365,9 @@ def handle (op : String) (args : List String) : Option String :=
   | "c16.linspace" => handleLinspace args
   | "c16.parray" => handlePArray args
   | "c16.params" => handleParams args
+  | "c16.linelen" => handleLineLen args
+  | "c16.circle" => handleCircle args
+  | "c16.vcircle" => handleVCircle args
   | _ => none
 
 end CBV.C16
